@@ -197,13 +197,13 @@ class NullCtx:
         return lambda *a, **kw: True
 
 
-def rich_hypergraph(rng, need_edges=True):
+def rich_hypergraph(rng, need_edges=True, ctx=None):
     """weighted or not, with metadata on nodes and hyperedges, built through the API"""
     cfg = history.Cfg(rng, "H", uni=rng.choice(["small", "gaps", "str", "bigneg", "float", "intfloat"]))
     cfg.invalid_rate = 0.1  # refused calls are part of the build: they must leave no trace in what is measured
     cfg.avoid = {"copy", "clear", "remove_node", "remove_nodes"}
     cfg.n_ops = rng.randint(6, 25)
-    live, _ = history.run_history(NullCtx(), rng, cfg, battery_every=0)
+    live, _ = history.run_history(history.BuildCtx(ctx, "C14") if ctx is not None else NullCtx(), rng, cfg, battery_every=0)
     h = live[0][0]
     for e in list(h.get_edges()):
         if len(e) == 0:
@@ -218,7 +218,7 @@ def rich_hypergraph(rng, need_edges=True):
 def case_add(ctx, rng, idx):
     from hypergraphx.generation.random import add_random_edge, add_random_edges
 
-    h = rich_hypergraph(rng)
+    h = rich_hypergraph(rng, ctx=ctx)
     many = rng.random() < 0.5
     n_nodes = h.num_nodes()
     size = rng.randint(1, min(4, n_nodes))
@@ -273,7 +273,7 @@ def case_add(ctx, rng, idx):
 def case_shuffle(ctx, rng, idx):
     from hypergraphx.generation import random as gr
 
-    h = rich_hypergraph(rng)
+    h = rich_hypergraph(rng, ctx=ctx)
     sizes = sorted({len(e) for e in h.get_edges()})
     all_orders = rng.random() < 0.3
     size = rng.choice(sizes + [max(sizes) + 1])
